@@ -88,6 +88,11 @@ public:
 
         _owner._connect_timer.expires_after(std::chrono::seconds(5));
 
+#ifdef BOOST_MQTT5_VERIF
+        // verification hook: a name resolution (asio's private thread) starts
+        BOOST_MQTT5_VERIF_RESOLVE_BEGIN();
+#endif
+
         auto timed_resolve = asioex::make_parallel_group(
             _owner._resolver.async_resolve(ap.host, ap.port, asio::deferred),
             _owner._connect_timer.async_wait(asio::deferred)
@@ -107,6 +112,10 @@ public:
         error_code resolve_ec, epoints epts,
         error_code timer_ec, authority_path ap
     ) {
+#ifdef BOOST_MQTT5_VERIF
+        // verification hook: the resolution started above has finished
+        BOOST_MQTT5_VERIF_RESOLVE_END();
+#endif
         if (
             (ord[0] == 0 && resolve_ec == asio::error::operation_aborted) ||
             (ord[0] == 1 && timer_ec == asio::error::operation_aborted)
